@@ -233,6 +233,12 @@ pub enum OptCfg {
 }
 
 impl OptCfg {
+    pub fn lr_mut(&mut self) -> &mut f32 {
+        match self {
+            OptCfg::SGD { lr, .. } | OptCfg::SGDM { lr, .. } | OptCfg::Adam { lr, .. } | OptCfg::AdamW { lr, .. } | OptCfg::RMSprop { lr, .. } => lr,
+        }
+    }
+
     pub fn to_lib(&self) -> optimizer::Optimizer {
         match self {
             OptCfg::SGD { lr, decay } => optimizer::SGD::create(*lr, *decay),
@@ -306,6 +312,11 @@ pub struct NetCfg {
     /// `set_activation(layer, activation)` calls made after the layers are added
     #[serde(default)]
     pub set_activations: Vec<(usize, Act)>,
+    /// if set, the final dense layer is *added* with this activation and switched to the one
+    /// in `layers` afterwards by `set_activation` (the activation in `layers` is always the
+    /// effective one, which is what every oracle reads)
+    #[serde(default)]
+    pub built_last_act: Option<Act>,
     /// gradient scaling function handed to `loopback`: 0 = 1/x, 1 = constant 1, 2 = 1/sqrt(x)
     #[serde(default)]
     pub loop_scale: u8,
@@ -324,6 +335,7 @@ impl NetCfg {
             objective: Obj::MSE,
             clamp: None,
             set_activations: Vec::new(),
+            built_last_act: None,
             loop_scale: 0,
         }
     }
@@ -363,10 +375,14 @@ impl NetCfg {
     pub fn build(&self) -> network::Network {
         crate::exec::set_phase("build:layers");
         let mut net = network::Network::new(self.input.to_lib());
-        for layer in &self.layers {
+        for (i, layer) in self.layers.iter().enumerate() {
             match layer {
                 LayerCfg::Dense { out, act, bias, dropout } => {
-                    net.dense(*out, act.to_lib(), *bias, *dropout)
+                    let built = match self.built_last_act {
+                        Some(a) if i + 1 == self.layers.len() => a,
+                        _ => *act,
+                    };
+                    net.dense(*out, built.to_lib(), *bias, *dropout)
                 }
                 LayerCfg::Conv { filters, kernel, stride, padding, dilation, act, dropout } => net
                     .convolution(
@@ -393,6 +409,11 @@ impl NetCfg {
         }
         for (layer, act) in &self.set_activations {
             net.set_activation(*layer, act.to_lib());
+        }
+        if self.built_last_act.is_some() {
+            if let Some(LayerCfg::Dense { act, .. }) = self.layers.last() {
+                net.set_activation(self.layers.len() - 1, act.to_lib());
+            }
         }
         crate::exec::set_phase("build:connect");
         for (from, to) in &self.connects {
